@@ -140,6 +140,9 @@ public:
     /// another slot in some chain belonging to the same entry (unordered!)
     Ipc::StoreMapSliceId &more;
 
+    /// the entry this slot was added to (or -1)
+    sfileno &owner;
+
     /* LoadingFlags::mapped */
     bool mapped() const { return flags.mapped; }
     void mapped(const bool beMapped) { flags.mapped = beMapped; }
@@ -166,6 +169,7 @@ public:
     using Sizes = Ipc::StoreMapItems<uint64_t>;
     using Versions = Ipc::StoreMapItems<uint32_t>;
     using Mores = Ipc::StoreMapItems<Ipc::StoreMapSliceId>;
+    using Owners = Ipc::StoreMapItems<sfileno>;
     using Flags = Ipc::StoreMapItems<LoadingFlags>;
 
     LoadingParts(const SwapDir &dir, const bool resuming);
@@ -177,6 +181,7 @@ public:
     Sizes &sizes() const { return *sizesOwner->object(); }
     Versions &versions() const { return *versionsOwner->object(); }
     Mores &mores() const { return *moresOwner->object(); }
+    Owners &owners() const { return *ownersOwner->object(); }
     Flags &flags() const { return *flagsOwner->object(); }
 
 private:
@@ -188,6 +193,7 @@ private:
 
     /* indexed by SlotId */
     Mores::Owner *moresOwner; ///< LoadingSlot::more for all slots
+    Owners::Owner *ownersOwner; ///< LoadingSlot::owner for all slots
 
     /* entry flags are indexed by sfileno; slot flags -- by SlotId */
     Flags::Owner *flagsOwner; ///< all LoadingEntry and LoadingSlot flags
@@ -208,6 +214,7 @@ Rock::LoadingEntry::LoadingEntry(const sfileno fileNo, LoadingParts &source):
 
 Rock::LoadingSlot::LoadingSlot(const SlotId slotId, LoadingParts &source):
     more(source.mores().at(slotId)),
+    owner(source.owners().at(slotId)),
     flags(source.flags().at(slotId))
 {
 }
@@ -226,16 +233,19 @@ Rock::LoadingParts::LoadingParts(const SwapDir &dir, const bool resuming):
     sizesOwner(createOwner<Sizes>(dir.path, "rebuild_sizes", dir.entryLimitActual(), resuming)),
     versionsOwner(createOwner<Versions>(dir.path, "rebuild_versions", dir.entryLimitActual(), resuming)),
     moresOwner(createOwner<Mores>(dir.path, "rebuild_mores", dir.slotLimitActual(), resuming)),
+    ownersOwner(createOwner<Owners>(dir.path, "rebuild_owners", dir.slotLimitActual(), resuming)),
     flagsOwner(createOwner<Flags>(dir.path, "rebuild_flags", dir.slotLimitActual(), resuming))
 {
     assert(sizes().capacity == versions().capacity); // every entry has both fields
     assert(sizes().capacity <= mores().capacity); // every entry needs slot(s)
     assert(mores().capacity == flags().capacity); // every slot needs a set of flags
+    assert(mores().capacity == owners().capacity); // every slot needs an owner
 
     if (!resuming) {
         // other parts rely on shared memory segments being zero-initialized
         // TODO: refactor the next slot pointer to use 0 for nil values
         mores().fill(-1);
+        owners().fill(-1);
     }
 }
 
@@ -244,6 +254,7 @@ Rock::LoadingParts::~LoadingParts()
     delete sizesOwner;
     delete versionsOwner;
     delete moresOwner;
+    delete ownersOwner;
     delete flagsOwner;
 }
 
@@ -607,6 +618,7 @@ Rock::Rebuild::finalizeOrThrow(const sfileno fileNo, LoadingEntry &le)
     while (slotId >= 0 && mappedSize < le.size) {
         LoadingSlot slot = loadingSlot(slotId); // throws if we have not loaded that slot
         Must(!slot.finalized()); // no loops or stealing from other entries
+        Must(slot.owner == fileNo); // no stealing from entries that are still loading
         Must(slot.mapped()); // all our slots should be in the sd->map
         Must(!slot.freed()); // all our slots should still be present
         slot.finalized(true);
@@ -795,6 +807,7 @@ Rock::Rebuild::addSlotToEntry(const sfileno fileno, const SlotId slotId, const D
     } else {
         chainSlots(anchor.start, slotId);
     }
+    loadingSlot(slotId).owner = fileno;
 
     le.size += header.payloadSize; // must precede freeBadEntry() calls
 
